@@ -366,6 +366,7 @@ func (s *s1) transact(i int, txn TxnSpec) *TxnOutcome {
 		return nil
 	}
 	prof := ProfileByName(txn.Profile)
+	prof.BigArith = e.Property == "C03"
 	if s.twin != nil {
 		prof.ExplicitID = 1000 // the twin must create the same rows
 	}
